@@ -390,9 +390,24 @@ func pathTo(parent map[*ssa.Function]*ssa.Function, f *ssa.Function) []string {
 // edges when staticOnly is true).
 func (a *Analysis) Callers(f *ssa.Function) []*ssa.Function {
 	m := map[*ssa.Function]bool{}
-	for _, e := range a.In[f] {
-		m[e.Caller] = true
+	seen := map[*ssa.Function]bool{}
+	var walk func(*ssa.Function)
+	walk = func(g *ssa.Function) {
+		if seen[g] {
+			return
+		}
+		seen[g] = true
+		for _, e := range a.In[g] {
+			// pointer-receiver wrappers, bound-method closures and thunks are
+			// transparent: their callers are the real callers
+			if e.Caller.Synthetic != "" && e.Caller.Synthetic != "package initializer" {
+				walk(e.Caller)
+				continue
+			}
+			m[e.Caller] = true
+		}
 	}
+	walk(f)
 	var out []*ssa.Function
 	for c := range m {
 		out = append(out, c)
